@@ -433,7 +433,8 @@ def reset_equals_new(ctx, prog):
             # exception 3: only the last element (the one read without an index bound) is re-initialised
             k = [k for k in crf if k[0] == "blockhash" and len(k) == 2]
             nil = "internals::generate::BLOCKHASH_CHAR_NIL=255"
-            ok = len(k) == 1 and "FULL_SIZE" in k[0][1] and k[0][1].startswith("[Sub(") and crf[k[0]] == nil and want == "[%s;64]" % nil
+            import re as _re
+            ok = len(k) == 1 and _re.match(r"^\[Sub\([\w:]*FULL_SIZE=64,1\)\]$", k[0][1]) is not None and crf[k[0]] == nil and want == "[%s;64]" % nil
             ctx.ob(R, "BlockHashContext::reset: blockhash[FULL_SIZE-1] = NIL (exception: elements below the index are never read)", ok,
                    "reset stores %s ; new: %s" % ({kk: crf[kk] for kk in k}, want), crst.loc())
         else:
